@@ -227,6 +227,13 @@ fn blackbox(kind: &str, k: usize, out: &mut Out) {
         out.viol("bb-no-result", &format!("{kind} {k}: no result from the black-box driver"));
         return;
     }
+    if kind == "cl_close_twice" {
+        let ok = seen.len() == 2 && seen.iter().all(|(c, b)| c == "relay" && *b == 20);
+        if !ok {
+            out.viol("bb-keepalive", &format!("cl_close_twice: observed {:?} (client connection must stay open and serve a second request)", seen));
+        }
+        return;
+    }
     if kind == "keepalive_close" {
         let ok = seen.len() == 2 && seen[0].0 == "relay" && ["relay", "default 502", "default 503"].contains(&seen[1].0.as_str());
         if !ok {
@@ -305,9 +312,6 @@ fn run(case: &Case, out: &mut Out) {
                         (0, 0)
                     } else if !s.context.keep_alive_backend {
                         (1, 0)
-                    } else if !s.back.consumed {
-                        // nothing of the response reached the client: 502, not a silent abort
-                        (3, 502)
                     } else {
                         (2, 0)
                     }
